@@ -3,6 +3,7 @@ package main
 // pure: validation of the Tier-A translator. Runs the original Go functions on boundary and random
 // inputs; the driver evaluates coq/gen/Pure.v on the same inputs inside Coq and compares.
 import (
+	"fmt"
 	"math/big"
 	"math/rand"
 	"time"
@@ -95,18 +96,35 @@ func runPure(rng *rand.Rand, n int, out *Out, args []string) {
 		}
 		if want(args, "rewards") {
 			ep := BoundaryU64(rng)
-			if rng.Intn(2) == 0 {
+			switch rng.Intn(3) {
+			case 0:
 				ep = uint64(rng.Intn(400))
+			case 1:
+				ep = uint64(i % 450) // every epoch up to past the end of both schedules, in turn
 			}
-			out.Case("NetworkZnnRewardPerEpoch", U64(ep), I64(constants.NetworkZnnRewardPerEpoch(ep)), "epoch")
-			out.Case("NetworkQsrRewardPerEpoch", U64(ep), I64(constants.NetworkQsrRewardPerEpoch(ep)), "epoch")
-			a, b := constants.PillarRewardPerMomentum(ep)
-			out.Case("PillarRewardPerMomentum", U64(ep), Tup(Big(a), Big(b)), "epoch")
-			a, b = constants.SentinelRewardForEpoch(ep)
-			out.Case("SentinelRewardForEpoch", U64(ep), Tup(Big(a), Big(b)), "epoch")
-			a, b = constants.LiquidityRewardForEpoch(ep)
-			out.Case("LiquidityRewardForEpoch", U64(ep), Tup(Big(a), Big(b)), "epoch")
-			out.Case("StakeQsrRewardPerEpoch", U64(ep), Big(constants.StakeQsrRewardPerEpoch(ep)), "epoch")
+			// the emission functions run inside the receive of every reward contract's Update (no recover on the
+			// producing pillar): a panic for some epoch is a failing input of its own
+			noPanic(out, "NetworkZnnRewardPerEpoch", ep, func() {
+				out.Case("NetworkZnnRewardPerEpoch", U64(ep), I64(constants.NetworkZnnRewardPerEpoch(ep)), "epoch")
+			})
+			noPanic(out, "NetworkQsrRewardPerEpoch", ep, func() {
+				out.Case("NetworkQsrRewardPerEpoch", U64(ep), I64(constants.NetworkQsrRewardPerEpoch(ep)), "epoch")
+			})
+			noPanic(out, "PillarRewardPerMomentum", ep, func() {
+				a, b := constants.PillarRewardPerMomentum(ep)
+				out.Case("PillarRewardPerMomentum", U64(ep), Tup(Big(a), Big(b)), "epoch")
+			})
+			noPanic(out, "SentinelRewardForEpoch", ep, func() {
+				a, b := constants.SentinelRewardForEpoch(ep)
+				out.Case("SentinelRewardForEpoch", U64(ep), Tup(Big(a), Big(b)), "epoch")
+			})
+			noPanic(out, "LiquidityRewardForEpoch", ep, func() {
+				a, b := constants.LiquidityRewardForEpoch(ep)
+				out.Case("LiquidityRewardForEpoch", U64(ep), Tup(Big(a), Big(b)), "epoch")
+			})
+			noPanic(out, "StakeQsrRewardPerEpoch", ep, func() {
+				out.Case("StakeQsrRewardPerEpoch", U64(ep), Big(constants.StakeQsrRewardPerEpoch(ep)), "epoch")
+			})
 		}
 		if want(args, "revoke") {
 			reg := rng.Int63n(2000000000)
@@ -127,4 +145,12 @@ func runPure(rng *rand.Rand, n int, out *Out, args []string) {
 			out.Case("GetSentinelRevokeStatus", Tup(I64(reg), I64(now)), Tup(ok, I64(left)), "window")
 		}
 	}
+}
+
+func noPanic(out *Out, fn string, ep uint64, f func()) {
+	defer func() {
+		r := recover()
+		out.Oracle(r == nil, "emission-function-does-not-panic", M{"function": fn, "epoch": ep, "panic": fmt.Sprint(r)})
+	}()
+	f()
 }
